@@ -86,7 +86,7 @@ fn child_main(sc: &'static dyn Scenario, params: &Value, tmpdir: &str) -> ! {
         "p_send_blocked": st.p_send_blocked, "p_recv_blocked": st.p_recv_blocked, "p_followup_blocked": st.p_followup_blocked,
         "p_fragmented_send": st.p_frag_send, "p_followup_tx": st.p_followup_tx, "p_epoll_full_batch": st.p_epoll_full,
         "p_epoll_blocked": st.p_epoll_blocked, "p_poll_timeout": st.p_poll_timeout, "p_ctrunc": st.p_ctrunc,
-        "p_trunc": st.p_trunc, "p_poisoned_buffers": st.p_poisoned, "p_clock_jumps": st.p_clock_jumps, "p_futex_wait": st.p_futex_wait, "p_stale_probe": st.p_stale,
+        "p_trunc": st.p_trunc, "p_poisoned_buffers": st.p_poisoned, "p_hook_sched_points": st.p_hook_points, "p_clock_jumps": st.p_clock_jumps, "p_futex_wait": st.p_futex_wait, "p_stale_probe": st.p_stale,
         "late_calls": st.late_calls, "discipline_breaks": st.discipline_breaks, "bad_close": st.bad_close,
         "tx_ok": st.tx_ok, "rx_ok": st.rx_ok, "fds_passed": st.fds_passed, "shared_maps_total": st.shared_maps_total,
         "sigpipe": sim::SIGPIPES.load(std::sync::atomic::Ordering::SeqCst),
